@@ -149,6 +149,17 @@ func buildDataURI(base, params []byte, enc string, payload []byte) []byte {
 				b.WriteByte(hex[c&15])
 			}
 		}
+	case "tab": // the package's own table for data URIs (an independent loop, not EncodeURL)
+		b.WriteByte(',')
+		for _, c := range payload {
+			if parse.DataURIEncodingTable[c] {
+				b.WriteByte('%')
+				b.WriteByte(up[c>>4])
+				b.WriteByte(up[c&15])
+			} else {
+				b.WriteByte(c)
+			}
+		}
 	case "query":
 		b.WriteByte(',')
 		b.WriteString(url.QueryEscape(string(payload)))
